@@ -3,8 +3,10 @@
 package main
 
 import (
+	"bytes"
 	"encoding/hex"
 	"fmt"
+	"sort"
 	"strconv"
 	"strings"
 	"sync"
@@ -40,33 +42,85 @@ func privKey(i int) ed25519.PrivKey {
 	return k
 }
 
-// address token: k<i> = address of key i, x<hex> = raw bytes
-func addrBytes(tok string) ([]byte, bool) {
-	if strings.HasPrefix(tok, "k") {
-		i, err := strconv.Atoi(tok[1:])
-		if err != nil || i < 0 || i > 999 {
-			return nil, false
+// Address tokens are the first 4 bytes of the address in hex (8 chars): the order of the tokens is
+// the byte order of the addresses (what ValidatorsByVotingPower breaks ties with). Keys the harness
+// knows: 0..19, 300..429 (large conflicting sets), 900, 901 (phantoms).
+var knownKeys = func() []int {
+	var l []int
+	for i := 0; i < 20; i++ {
+		l = append(l, i)
+	}
+	for i := 300; i < 430; i++ {
+		l = append(l, i)
+	}
+	return append(l, 900, 901)
+}()
+
+var (
+	tokOnce  sync.Once
+	tokToKey map[string]int
+	keyToTok map[int]string
+)
+
+func initToks() {
+	tokOnce.Do(func() {
+		tokToKey, keyToTok = map[string]int{}, map[int]string{}
+		for _, i := range knownKeys {
+			t := hex.EncodeToString(privKey(i).PubKey().Address()[:4])
+			if _, dup := tokToKey[t]; dup {
+				panic("address prefix collision among harness keys")
+			}
+			tokToKey[t], keyToTok[i] = i, t
 		}
+	})
+}
+
+// kt: address token of key i
+func kt(i int) string { initToks(); return keyToTok[i] }
+
+func isTok(tok string) bool {
+	if len(tok) != 8 {
+		return false
+	}
+	_, err := hex.DecodeString(tok)
+	return err == nil && strings.ToLower(tok) == tok
+}
+
+// addrBytes: the address a token stands for (unknown tokens: the 4 bytes, padded)
+func addrBytes(tok string) ([]byte, bool) {
+	if !isTok(tok) {
+		return nil, false
+	}
+	initToks()
+	if i, ok := tokToKey[tok]; ok {
 		return privKey(i).PubKey().Address(), true
 	}
-	if strings.HasPrefix(tok, "x") {
-		b, err := hex.DecodeString(tok[1:])
-		if err != nil {
-			return nil, false
-		}
-		return b, true
+	b, _ := hex.DecodeString(tok)
+	for len(b) < 20 {
+		b = append(b, 0x5a)
 	}
-	return nil, false
+	return b, true
+}
+
+// tokOfAddr: token of an address (inverse of addrBytes on what the harness builds)
+func tokOfAddr(a []byte) string {
+	if len(a) < 4 {
+		return "00000000"
+	}
+	return hex.EncodeToString(a[:4])
 }
 
 func keyIdx(tok string) (int, bool) {
-	if strings.HasPrefix(tok, "k") {
-		i, err := strconv.Atoi(tok[1:])
-		if err == nil && i >= 0 && i <= 999 {
-			return i, true
-		}
+	initToks()
+	i, ok := tokToKey[tok]
+	return i, ok
+}
+
+func h8(b []byte) string {
+	if len(b) < 4 {
+		return "00000000"
 	}
-	return 0, false
+	return hex.EncodeToString(b[:4])
 }
 
 type valTok struct {
@@ -76,8 +130,10 @@ type valTok struct {
 }
 
 type blkDef struct {
-	t    int64
-	vals []valTok
+	t     int64
+	vals  []valTok
+	round int32 // round of the block's commit
+	flags []int // flag byte of each slot of that commit
 }
 
 type evDef struct {
@@ -187,45 +243,79 @@ func (c *chain) params() tmproto.ConsensusParams {
 	return p
 }
 
+// build makes the stores (once)
 func (c *chain) build() {
 	if c.built {
 		return
 	}
 	c.built = true
-	for _, b := range c.blks {
-		c.vsets = append(c.vsets, c.valSetOf(b))
-	}
-	params := c.params()
-	lastID := types.BlockID{}
-	lastCommit := types.NewCommit(0, 0, types.BlockID{}, nil)
-	for h := int64(1); h <= c.n(); h++ {
-		vs := c.vsets[h-1]
-		blk := types.MakeBlock(h, nil, lastCommit, nil)
-		blk.Header.Version = tmversion.Consensus{Block: version.BlockProtocol, App: 1}
-		blk.Header.ChainID = chainID
-		blk.Header.Time = tm(c.blks[h-1].t)
-		blk.Header.LastBlockID = lastID
-		blk.Header.ValidatorsHash = vs.Hash()
-		blk.Header.NextValidatorsHash = c.vset(h + 1).Hash()
-		blk.Header.ConsensusHash = types.HashConsensusParams(params)
-		blk.Header.AppHash = fixed(byte(h))
-		blk.Header.LastResultsHash = fixed(0x11)
-		blk.Header.ProposerAddress = vs.Validators[0].Address
-		ps := blk.MakePartSet(65536)
-		id := types.BlockID{Hash: blk.Hash(), PartSetHeader: ps.Header()}
-		sigs := make([]types.CommitSig, len(vs.Validators))
-		for i, v := range vs.Validators {
-			sigs[i] = types.NewCommitSigForBlock(fixed(0x77)[:], v.Address, tm(c.blks[h-1].t))
-		}
-		cm := types.NewCommit(h, 0, id, sigs)
-		c.blocks = append(c.blocks, blk)
-		c.parts = append(c.parts, ps)
-		c.commit = append(c.commit, cm)
-		lastID, lastCommit = id, cm
-	}
 	c.stateStore = sm.NewStore(dbm.NewMemDB(), sm.StoreOptions{})
 	c.blockStore = store.NewBlockStore(dbm.NewMemDB())
 	c.evDB = dbm.NewMemDB()
+}
+
+// appendBlock builds block h = len+1 from its definition alone (header and commit do not depend on
+// the neighbouring blocks, so a line's derived tokens are a function of that line)
+func (c *chain) appendBlock(b blkDef) {
+	blk, ps, cm, vs := c.makeBlock(b)
+	c.blks = append(c.blks, b)
+	c.vsets = append(c.vsets, vs)
+	c.blocks = append(c.blocks, blk)
+	c.parts = append(c.parts, ps)
+	c.commit = append(c.commit, cm)
+}
+
+// blkToks: the derived tokens the next `blk` line must carry
+func (c *chain) blkToks(b blkDef) (string, string) {
+	blk, _, _, _ := c.makeBlock(b)
+	return headerToks(&blk.Header)
+}
+
+func (c *chain) makeBlock(b blkDef) (*types.Block, *types.PartSet, *types.Commit, *types.ValidatorSet) {
+	h := int64(len(c.blks)) + 1
+	vs := c.valSetOf(b)
+	var lastCommit *types.Commit
+	if h == 1 {
+		lastCommit = types.NewCommit(0, 0, types.BlockID{}, nil)
+	} else {
+		lastCommit = c.commit[h-2]
+	}
+	blk := types.MakeBlock(h, nil, lastCommit, nil)
+	blk.Header.Version = tmversion.Consensus{Block: version.BlockProtocol, App: 1}
+	blk.Header.ChainID = chainID
+	blk.Header.Time = tm(b.t)
+	blk.Header.LastBlockID = types.BlockID{Hash: fixed(byte(h - 1)), PartSetHeader: types.PartSetHeader{Total: 1, Hash: fixed(0xBC)}}
+	blk.Header.LastCommitHash = fixed(byte(h) ^ 0x80)
+	blk.Header.ValidatorsHash = vs.Hash()
+	blk.Header.NextValidatorsHash = vs.Hash()
+	blk.Header.ConsensusHash = types.HashConsensusParams(c.params())
+	blk.Header.AppHash = fixed(byte(h))
+	blk.Header.LastResultsHash = fixed(0x11)
+	blk.Header.ProposerAddress = vs.Validators[0].Address
+	ps := blk.MakePartSet(65536)
+	id := types.BlockID{Hash: fixed(byte(h) ^ 0x40), PartSetHeader: types.PartSetHeader{Total: 1, Hash: fixed(0xBD)}}
+	sigs := make([]types.CommitSig, len(vs.Validators))
+	for i, v := range vs.Validators {
+		fl := 2
+		if i < len(b.flags) {
+			fl = b.flags[i]
+		}
+		switch fl {
+		case 1:
+			sigs[i] = types.NewCommitSigAbsent()
+		case 3:
+			sigs[i] = types.CommitSig{BlockIDFlag: types.BlockIDFlagNil, ValidatorAddress: v.Address, Timestamp: tm(b.t), Signature: fixed(0x77)}
+		default:
+			sigs[i] = types.NewCommitSigForBlock(fixed(0x77), v.Address, tm(b.t))
+		}
+	}
+	return blk, ps, types.NewCommit(h, b.round, id, sigs), vs
+}
+
+// derived tokens of a header: its hash and the five fields ConflictingHeaderIsInvalid compares
+func headerToks(hd *types.Header) (string, string) {
+	return h8(hd.Hash()), strings.Join([]string{h8(hd.ValidatorsHash), h8(hd.NextValidatorsHash), h8(hd.ConsensusHash),
+		h8(hd.AppHash), h8(hd.LastResultsHash)}, ".")
 }
 
 // hooker lets the harness run something at a chosen point INSIDE a pool call: the next store lookup
@@ -442,7 +532,8 @@ func buildDV(m map[string]string) (*types.DuplicateVoteEvidence, bool) {
 	return &types.DuplicateVoteEvidence{VoteA: a, VoteB: b, TotalVotingPower: tvp, ValidatorPower: vp, Timestamp: tm(t)}, true
 }
 
-// buildLCA builds the object of a `kind=lca` line. tag = <attack>.<mutation>
+// buildLCA builds the object of a `kind=lca` line from its build inputs: common, cfh, cft, tvp, t and
+// tag = <attack>.<mutation>. Everything else on the line is derived from the object (lcaToks).
 func (c *chain) buildLCA(m map[string]string) (*types.LightClientAttackEvidence, bool) {
 	common, ok1 := pint(m, "common")
 	cfh, ok2 := pint(m, "cfh")
@@ -450,7 +541,7 @@ func (c *chain) buildLCA(m map[string]string) (*types.LightClientAttackEvidence,
 	tvp, ok4 := pint(m, "tvp")
 	t, ok5 := pint(m, "t")
 	tag := strings.Split(m["tag"], ".")
-	if !(ok1 && ok2 && ok3 && ok4 && ok5) || len(tag) != 2 || cfh < 1 {
+	if !(ok1 && ok2 && ok3 && ok4 && ok5) || len(tag) != 2 || cfh < 1 || c.n() == 0 {
 		return nil, false
 	}
 	atk, mut := tag[0], tag[1]
@@ -461,45 +552,73 @@ func (c *chain) buildLCA(m map[string]string) (*types.LightClientAttackEvidence,
 	hd := c.blocks[baseH-1].Header // copy
 	hd.Height = cfh
 	hd.Time = tm(cft)
-	round := int32(0)
-	// conflicting validator set (by key index) and who signs
+	round := c.commit[baseH-1].Round
 	type cv struct {
 		ki    int
 		power int64
 	}
 	var cvs []cv
+	ownVals := func(h int64) bool {
+		for _, v := range c.blkAt(h).vals {
+			ki, ok := keyIdx(v.pk)
+			if !ok || v.addr != v.pk {
+				return false
+			}
+			cvs = append(cvs, cv{ki, v.power})
+		}
+		return true
+	}
 	switch atk {
 	case "lunatic", "lunaticbig":
 		hd.AppHash = fixed(0xEE)
+		cvs = nil
 		for _, v := range c.blkAt(common).vals {
 			if ki, ok := keyIdx(v.pk); ok && v.addr == v.pk {
 				cvs = append(cvs, cv{ki, v.power})
 			}
 		}
 		cvs = append(cvs, cv{900, 1}) // a phantom validator
-		if atk == "lunaticbig" {      // a large conflicting validator set: the encoded evidence exceeds 16 KiB
+		if atk == "lunaticbig" {      // the encoded evidence exceeds 16 KiB
 			for k := 0; k < 130; k++ {
 				cvs = append(cvs, cv{300 + k, 1})
 			}
 		}
-	case "equiv", "amnesia", "same":
-		for _, v := range c.blkAt(cfh).vals {
-			if ki, ok := keyIdx(v.pk); ok && v.addr == v.pk {
-				cvs = append(cvs, cv{ki, v.power})
-			}
-		}
-		if len(cvs) != len(c.blkAt(cfh).vals) {
+	case "equiv":
+		if !ownVals(cfh) {
 			return nil, false
 		}
-		if atk == "equiv" {
-			hd.DataHash = fixed(0xDD)
+		hd.DataHash = fixed(0xDD)
+	case "amnesia":
+		if !ownVals(cfh) {
+			return nil, false
 		}
-		if atk == "amnesia" {
-			hd.DataHash = fixed(0xDC)
-			round = 1
+		hd.DataHash = fixed(0xDC)
+		round++
+	case "same":
+		if !ownVals(cfh) {
+			return nil, false
 		}
 	default:
 		return nil, false
+	}
+	// single-field perturbations of the header
+	switch mut {
+	case "d0":
+		hd.ValidatorsHash = fixed(0xA0)
+	case "d1":
+		hd.NextValidatorsHash = fixed(0xA1)
+	case "d2":
+		hd.ConsensusHash = fixed(0xA2)
+	case "d3":
+		hd.AppHash = fixed(0xA3)
+	case "d4":
+		hd.LastResultsHash = fixed(0xA4)
+	case "round":
+		round++
+	case "cvpow":
+		if len(cvs) > 0 {
+			cvs[0].power++
+		}
 	}
 	if len(cvs) == 0 {
 		return nil, false
@@ -512,13 +631,18 @@ func (c *chain) buildLCA(m map[string]string) (*types.LightClientAttackEvidence,
 		byAddr[string(pk.Address())] = v.ki
 	}
 	cvals := types.NewValidatorSet(vals)
-	if atk == "lunatic" || atk == "lunaticbig" {
+	if (atk == "lunatic" || atk == "lunaticbig") && mut != "d0" {
 		hd.ValidatorsHash = cvals.Hash()
 	}
 	id := types.BlockID{Hash: hd.Hash(), PartSetHeader: types.PartSetHeader{Total: 1, Hash: fixed(0xCC)}}
-	sigs := make([]types.CommitSig, len(cvals.Validators))
+	n := len(cvals.Validators)
+	sigs := make([]types.CommitSig, n)
 	for i, v := range cvals.Validators {
 		if mut == "fewsig" && i > 0 {
+			sigs[i] = types.NewCommitSigAbsent()
+			continue
+		}
+		if mut == "flagabs" && i == n-1 {
 			sigs[i] = types.NewCommitSigAbsent()
 			continue
 		}
@@ -528,26 +652,40 @@ func (c *chain) buildLCA(m map[string]string) (*types.LightClientAttackEvidence,
 		if err != nil {
 			return nil, false
 		}
-		if mut == "badsig" && i == 0 {
+		if (mut == "badsig" && i == 0) || (mut == "badsiglast" && i == n-1) {
 			s[3] ^= 0x40
 		}
 		sigs[i] = types.NewCommitSigForBlock(s, v.Address, tm(cft))
+		switch {
+		case mut == "flagnil" && i == n-1: // a nil vote: never verified, still "not absent"
+			sigs[i].BlockIDFlag = types.BlockIDFlagNil
+			sigs[i].Signature = fixed(0x55)
+		case mut == "sigaddr" && i == n-1: // slot address outside the conflicting set (unauthenticated field)
+			sigs[i].ValidatorAddress, _ = addrBytes("0badc0de")
+		case mut == "sigaddrnil" && i == n-1: // same on a nil vote
+			sigs[i].BlockIDFlag = types.BlockIDFlagNil
+			sigs[i].Signature = fixed(0x55)
+			sigs[i].ValidatorAddress, _ = addrBytes("0badc0de")
+		case mut == "sigaddr2" && i == n-1 && n > 1: // address of another member
+			sigs[i].ValidatorAddress = cvals.Validators[0].Address
+		}
+	}
+	cmh := cfh
+	if mut == "cmheight" {
+		cmh++
 	}
 	ev := &types.LightClientAttackEvidence{
 		ConflictingBlock: &types.LightBlock{
-			SignedHeader: &types.SignedHeader{Header: &hd, Commit: types.NewCommit(cfh, round, id, sigs)},
+			SignedHeader: &types.SignedHeader{Header: &hd, Commit: types.NewCommit(cmh, round, id, sigs)},
 			ValidatorSet: cvals,
 		},
 		CommonHeight:     common,
 		TotalVotingPower: tvp,
 		Timestamp:        tm(t),
 	}
-	// byzantine validators as the full node would compute them (when it has the headers), then mutated
+	// byzantine validators by the intersection rule, computed here (not by the code under test), then mutated
 	if common >= 1 && common <= c.n() && cfh <= c.n() {
-		func() {
-			defer func() { recover() }()
-			ev.ByzantineValidators = ev.GetByzantineValidators(c.vset(common), c.signedHeader(cfh))
-		}()
+		ev.ByzantineValidators = c.refByz(ev)
 	}
 	bz := ev.ByzantineValidators
 	switch mut {
@@ -563,21 +701,137 @@ func (c *chain) buildLCA(m map[string]string) (*types.LightClientAttackEvidence,
 			cp.VotingPower++
 			ev.ByzantineValidators = append([]*types.Validator{cp}, bz[1:]...)
 		}
+	case "byzaddr":
+		if len(bz) > 0 {
+			cp := bz[0].Copy()
+			cp.Address, _ = addrBytes("0badc0de")
+			ev.ByzantineValidators = append([]*types.Validator{cp}, bz[1:]...)
+		}
 	case "byzswap":
 		if len(bz) > 1 {
 			r := append([]*types.Validator{}, bz...)
 			r[0], r[len(r)-1] = r[len(r)-1], r[0]
 			ev.ByzantineValidators = r
 		}
-	case "none", "badsig", "fewsig":
+	case "byzone": // exactly one entry (what a nil validator would be compared with)
+		ev.ByzantineValidators = []*types.Validator{types.NewValidator(privKey(901).PubKey(), 3)}
+	case "none", "badsig", "badsiglast", "fewsig", "flagabs", "flagnil", "sigaddr", "sigaddrnil", "sigaddr2", "cmheight",
+		"d0", "d1", "d2", "d3", "d4", "round", "cvpow":
 	default:
 		return nil, false
 	}
 	return ev, true
 }
 
+// refByz: who misbehaved, from the definition of the three attacks. Lunatic (the conflicting header is
+// not derived from the trusted state): members of the common set with a for-block slot in the
+// conflicting commit. Equivocation (same round): members of the conflicting set whose slot is present in
+// both commits. Amnesia (other round): nobody can be named. Ordered by power (desc), then address.
+func (c *chain) refByz(ev *types.LightClientAttackEvidence) []*types.Validator {
+	cb := ev.ConflictingBlock
+	tr := c.signedHeader(cb.Height)
+	if tr == nil {
+		return nil
+	}
+	var out []*types.Validator
+	derivedDiffer := !bytes.Equal(tr.ValidatorsHash, cb.ValidatorsHash) || !bytes.Equal(tr.NextValidatorsHash, cb.NextValidatorsHash) ||
+		!bytes.Equal(tr.ConsensusHash, cb.ConsensusHash) || !bytes.Equal(tr.AppHash, cb.AppHash) ||
+		!bytes.Equal(tr.LastResultsHash, cb.LastResultsHash)
+	find := func(vs *types.ValidatorSet, a []byte) *types.Validator {
+		for _, v := range vs.Validators {
+			if bytes.Equal(v.Address, a) {
+				return v
+			}
+		}
+		return nil
+	}
+	switch {
+	case derivedDiffer:
+		cv := c.vset(ev.CommonHeight)
+		for _, s := range cb.Commit.Signatures {
+			if s.BlockIDFlag == types.BlockIDFlagCommit {
+				if v := find(cv, s.ValidatorAddress); v != nil {
+					out = append(out, v)
+				}
+			}
+		}
+	case tr.Commit.Round == cb.Commit.Round:
+		for i, s := range cb.Commit.Signatures {
+			if s.BlockIDFlag == types.BlockIDFlagAbsent || i >= len(tr.Commit.Signatures) ||
+				tr.Commit.Signatures[i].BlockIDFlag == types.BlockIDFlagAbsent {
+				continue
+			}
+			if v := find(cb.ValidatorSet, s.ValidatorAddress); v != nil {
+				out = append(out, v)
+			}
+		}
+	}
+	sort.SliceStable(out, func(i, j int) bool {
+		if out[i].VotingPower != out[j].VotingPower {
+			return out[i].VotingPower > out[j].VotingPower
+		}
+		return bytes.Compare(out[i].Address, out[j].Address) < 0
+	})
+	return out
+}
+
+// lcaToks: the content of light-client-attack evidence as the model reads it
+func lcaToks(ev *types.LightClientAttackEvidence) map[string]string {
+	out := map[string]string{}
+	cb := ev.ConflictingBlock
+	out["hh"], out["hd"] = headerToks(cb.Header)
+	out["cmh"] = strconv.FormatInt(cb.Commit.Height, 10)
+	out["cr"] = strconv.FormatInt(int64(cb.Commit.Round), 10)
+	var cv, cs, bz []string
+	initToks()
+	for _, v := range cb.ValidatorSet.Validators {
+		cv = append(cv, fmt.Sprintf("%s:%d:%s", tokOfAddr(v.Address), v.VotingPower, tokOfAddr(v.PubKey.Address())))
+	}
+	for i, s := range cb.Commit.Signatures {
+		sig := "x"
+		if s.BlockIDFlag != types.BlockIDFlagAbsent {
+			// which harness key (if any) this signature verifies under, for this slot's sign bytes
+			sb := func() (b []byte) {
+				defer func() { recover() }()
+				return cb.Commit.VoteSignBytes(chainID, int32(i))
+			}()
+			try := []int{}
+			if i < len(cb.ValidatorSet.Validators) {
+				if k, ok := tokToKey[tokOfAddr(cb.ValidatorSet.Validators[i].PubKey.Address())]; ok {
+					try = append(try, k)
+				}
+			}
+			if k, ok := tokToKey[tokOfAddr(s.ValidatorAddress)]; ok {
+				try = append(try, k)
+			}
+			for _, k := range try {
+				if sb != nil && privKey(k).PubKey().VerifySignature(sb, s.Signature) {
+					sig = "s" + kt(k)
+					break
+				}
+			}
+		}
+		addr := "00000000"
+		if len(s.ValidatorAddress) >= 4 {
+			addr = tokOfAddr(s.ValidatorAddress)
+		}
+		cs = append(cs, fmt.Sprintf("%d:%s:%s", s.BlockIDFlag, addr, sig))
+	}
+	for _, v := range ev.ByzantineValidators {
+		bz = append(bz, fmt.Sprintf("%s:%d", tokOfAddr(v.Address), v.VotingPower))
+	}
+	join := func(l []string, sep string) string {
+		if len(l) == 0 {
+			return "-"
+		}
+		return strings.Join(l, sep)
+	}
+	out["cv"], out["cs"], out["byz"] = join(cv, ","), join(cs, ";"), join(bz, ",")
+	return out
+}
+
 // lcaVerdict: VerifyLightClientAttack against the chain's own headers (trusted header taken at the
-// conflicting height) — the value of the model's `lcaOK` parameter
+// conflicting height): reference verdict for the oracle (the model computes its own)
 func (c *chain) lcaVerdict(ev *types.LightClientAttackEvidence) (ok bool) {
 	common, cfh := ev.CommonHeight, ev.ConflictingBlock.Height
 	if common < 1 || common > c.n() || cfh < 1 || cfh > c.n() {
@@ -619,6 +873,17 @@ func (c *chain) define(m map[string]string) (*evDef, bool) {
 	d.hash = hash12(d.ev)
 	d.sz = protoSize(d.ev)
 	d.vb = d.ev.ValidateBasic() == nil
+	if d.vb {
+		// evidence reaches the pool decoded from protobuf (reactor message, block): hand the pool
+		// the decoded object
+		if pb, err := types.EvidenceToProto(d.ev); err == nil {
+			if ev2, err := types.EvidenceFromProto(pb); err == nil {
+				d.ev = ev2
+			} else {
+				d.vb = false
+			}
+		}
+	}
 	return d, true
 }
 
@@ -631,6 +896,9 @@ func (c *chain) derived(d *evDef) map[string]string {
 		out["sa"], out["sb"] = b01(sa), b01(sb)
 	case *types.LightClientAttackEvidence:
 		out["ok"] = b01(c.lcaVerdict(ev))
+		for k, v := range lcaToks(ev) {
+			out[k] = v
+		}
 	}
 	return out
 }
